@@ -1872,6 +1872,12 @@ class SolidityStorage(Storage):
                 base = simplify(sha3_input.arg(1))
                 if offset.size() != 256 and base.size() == 256:
                     return cls.decode(ex, base) + (offset, Z3_ZERO)
+            elif is_bv_value(sha3_input) and sha3_input.size() > 256:
+                # same shape with a concrete key: the preimage is a single constant,
+                # split it the way the symbolic case above is split
+                offset = simplify(Extract(sha3_input.size() - 1, 256, sha3_input))
+                base = simplify(Extract(255, 0, sha3_input))
+                return cls.decode(ex, base) + (offset, Z3_ZERO)
         elif loc.decl().name() == "bvadd":
             #   # when len(args) == 2
             #   arg0 = cls.decode(loc.arg(0))
